@@ -33,6 +33,7 @@ type EncOpts struct {
 	EmbedCert []byte // recipient certificate put into EncryptedKey/KeyInfo (nil = absent)
 	Recipient *rsa.PublicKey
 	Rand      io.Reader // for symmetric key, IV, padding
+	InheritNS bool      // plaintext without its own namespace declaration (inherits the Response's)
 }
 
 var DataAlgs = []string{types.MethodAES128GCM, types.MethodAES192GCM, types.MethodAES256GCM, types.MethodAES128CBC, types.MethodAES256CBC}
